@@ -11,6 +11,15 @@ import traceback
 from .core import AnalysisError, Report
 
 
+def anchor_files(prop):
+    here = os.path.dirname(os.path.dirname(os.path.abspath(__file__)))
+    for line in open(os.path.join(here, "properties.jsonl")):
+        d = json.loads(line)
+        if d["id"] == prop:
+            return set(d.get("anchors", {}).get("files", []))
+    return set()
+
+
 def run_property(prop, tier="quick", repo="/repo", evidence_dir=None, quiet=False, replay=None, selftest=True):
     rep = Report(prop, tier, repo, evidence_dir, quiet)
     if replay:
@@ -28,6 +37,13 @@ def run_property(prop, tier="quick", repo="/repo", evidence_dir=None, quiet=Fals
         if prog.normalised or prog.inlined:
             rep.extra["normalisations"] = list(prog.normalised) + [f"inlined {h} into {c}" for c, h in prog.inlined]
         mod.check(prog, rep)
+        # shared by all properties: the logging statements of the property's anchor files evaluate nothing that can fail
+        from .rules_raise import log_total
+
+        log_total(prog, rep, anchor_files(prop))
+        from .rules_raise import one_shot_reuse
+
+        one_shot_reuse(prog, rep, anchor_files(prop))
         if tier == "thorough" and selftest and hasattr(mod, "VARIANTS"):
             from .selftest import run_selftest
 
